@@ -136,7 +136,7 @@ def unique_ignoring_case(names):
     return True
 
 
-def h19c_add_table(c1, c2, u2, rename, c3, u3, explicit, c4, u4):
+def h19c_add_table(c1, c2, u2, rename, c3, u3, explicit, c4, u4, pre=0):
     """add_table after an optional rename: automatic names are fresh, an explicit duplicate (ignoring case) is refused
     with IndexError and changes nothing, otherwise exactly one table with that name is appended last"""
     from numbers_parser.document import Sheet
@@ -146,11 +146,19 @@ def h19c_add_table(c1, c2, u2, rename, c3, u3, explicit, c4, u4):
     model = DocModel([("Sheet 1", [n1, n2])])
     sid = model.sheet_ids()[0]
     sheet = Sheet(model, sid)
+    # an earlier step of the history: nothing, a membership test, or an earlier (automatic-name) add
+    if pre == 1:
+        assert n1 in sheet.tables
+    elif pre == 2:
+        sheet.add_table()
     if rename:
         new = tname(u3, c3)
-        assume(new.lower() != n2.lower())
+        for k in range(1, len(sheet.tables)):
+            assume(new.lower() != sheet.tables[k].name.lower())
         sheet.tables[0].name = new
     before = [t.name for t in sheet.tables]
+    nb = len(before)
+    assert nb == (3 if pre == 2 else 2) and unique_ignoring_case(before)
     want = tname(u4, c4) if explicit else None
     try:
         t = sheet.add_table(want)
@@ -161,11 +169,11 @@ def h19c_add_table(c1, c2, u2, rename, c3, u3, explicit, c4, u4):
             if b.lower() == want.lower():
                 dup = True
         assert dup
-        assert [x.name for x in sheet.tables] == before and len(model.sheets[sid][1]) == 2
+        assert [x.name for x in sheet.tables] == before and len(model.sheets[sid][1]) == nb
         return
     after = [x.name for x in sheet.tables]
-    assert len(after) == 3 and after[:2] == before
-    assert sheet.tables[-1] is t and sheet.tables[2] is t
+    assert len(after) == nb + 1 and after[:nb] == before
+    assert sheet.tables[-1] is t and sheet.tables[nb] is t
     if explicit:
         assert t.name == want
     assert unique_ignoring_case(after)
@@ -173,29 +181,43 @@ def h19c_add_table(c1, c2, u2, rename, c3, u3, explicit, c4, u4):
     assert t.name in sheet.tables
 
 
-def h19c_add_sheet(c1, rename, c3, u3, explicit, c4, u4):
+def h19c_add_sheet(c1, rename, c3, u3, explicit, c4, u4, pre=0):
     from numbers_parser.document import Document
     s1 = "Sheet " + c1
     model = DocModel([(s1, ["Table 1"])])
     doc = object.__new__(Document)
     doc._model = model
     doc._sheets = ItemsList(model, model.sheet_ids(), __import__("numbers_parser.document", fromlist=["Sheet"]).Sheet)
+    if pre == 1:
+        assert s1 in doc.sheets
+    elif pre == 2:
+        doc.add_sheet()
     if rename:
-        doc.sheets[0].name = ("SHEET " if u3 else "Sheet ") + c3
+        new = ("SHEET " if u3 else "Sheet ") + c3
+        for k in range(1, len(doc.sheets)):
+            assume(new.lower() != doc.sheets[k].name.lower())
+        doc.sheets[0].name = new
     before = [x.name for x in doc.sheets]
+    nb = len(before)
+    assert nb == (2 if pre == 2 else 1) and unique_ignoring_case(before)
     want = (("SHEET " if u4 else "Sheet ") + c4) if explicit else None
     try:
         doc.add_sheet(want)
     except IndexError:
-        assert explicit and before[0].lower() == want.lower()
+        assert explicit
+        dup = False
+        for b in before:
+            if b.lower() == want.lower():
+                dup = True
+        assert dup
         assert [x.name for x in doc.sheets] == before
         return
     after = [x.name for x in doc.sheets]
-    assert len(after) == 2 and after[0] == before[0]
+    assert len(after) == nb + 1 and after[:nb] == before
     if explicit:
-        assert after[1] == want
+        assert after[nb] == want
     assert unique_ignoring_case(after)
-    assert doc.sheets[after[1]] is doc.sheets[1]
+    assert doc.sheets[after[nb]] is doc.sheets[nb]
 
 
 DIGITISH = [(0x30, 0x39), (0x41, 0x5A), (0x61, 0x7A)]
@@ -214,13 +236,16 @@ HARNESSES = [
 HARNESSES += [
     Harness("H19c-table", h19c_add_table,
             dict(c1=StrDom(1, DIGITISH), c2=StrDom(1, DIGITISH), u2=BoolDom(), rename=BoolDom(), c3=StrDom(1, DIGITISH), u3=BoolDom(),
-                 explicit=BoolDom(), c4=StrDom(1, DIGITISH), u4=BoolDom()),
-            bounds="sheet with 2 tables named 'Table <c>' / 'TABLE <c>' (c any ASCII letter or digit, symbolic), optional rename of "
-                   "the first, then add_table with an automatic or explicit (possibly case-variant duplicate) name",
+                 explicit=BoolDom(), c4=StrDom(1, DIGITISH), u4=BoolDom(), pre=Cases([0, 1, 2])),
+            bounds="sheet with 2 tables named 'Table <c>' / 'TABLE <c>' (c any ASCII letter or digit, symbolic); history: "
+                   "[nothing | a membership test | an automatic-name add_table], optional rename of the first table, then "
+                   "add_table with an automatic or explicit (possibly case-variant duplicate) name",
             stubs=["model stub holding names and ids (tables are 0 x 0, so only the collection logic runs)"],
             outside=["names and order after save/reopen", "more than 2 existing siblings; names of other shapes"]),
     Harness("H19c-sheet", h19c_add_sheet,
-            dict(c1=StrDom(1, DIGITISH), rename=BoolDom(), c3=StrDom(1, DIGITISH), u3=BoolDom(), explicit=BoolDom(), c4=StrDom(1, DIGITISH), u4=BoolDom()),
-            bounds="document with one sheet 'Sheet <c>', optional rename, then add_sheet automatic / explicit"),
+            dict(c1=StrDom(1, DIGITISH), rename=BoolDom(), c3=StrDom(1, DIGITISH), u3=BoolDom(), explicit=BoolDom(), c4=StrDom(1, DIGITISH), u4=BoolDom(),
+                 pre=Cases([0, 1, 2])),
+            bounds="document with one sheet 'Sheet <c>'; history: [nothing | a membership test | an automatic-name add_sheet], "
+                   "optional rename of the first sheet, then add_sheet automatic / explicit"),
 ]
 PROPERTY = "C19"
